@@ -6,7 +6,7 @@
    Newton step is read as real division (IEEE 0/0 = NaN is treated by the
    number-system independent theorems C11_nan_step_raises / C11_nr_wrapper_status). *)
 From Coq Require Import Reals ZArith List Bool Lia Lra QArith.
-From Coquelicot Require Import Coquelicot.
+From Coquelicot Require Coquelicot.
 From Sky Require Import Result Num NumR G_minimize M_Minimize M_MinimizeX S_Minimize
   P_Minimize P_MinimizeWrap P_MinimizeScan P_MinimizeDeep P_MinimizeNaN P_MinimizeDom P_MinimizeMulti.
 Import ListNotations.
@@ -507,9 +507,9 @@ Qed.
    f * g(ns f) and the term the code sums, h(ns f) * f^2, is ITS derivative — the f'' handed to Newton-Raphson
    is the derivative of the f' handed to it *)
 Theorem C11_multi_ns_grad2 : forall erfR (L g h : R -> R) (f ns : R),
-  (forall x, is_derive L x (g x)) -> (forall x, is_derive g x (h x)) ->
-  is_derive (fun n => L (multi_nsf (RNum erfR) n f)) ns (f * g (multi_nsf (RNum erfR) ns f)) /\
-  is_derive (fun n => f * g (multi_nsf (RNum erfR) n f)) ns
+  (forall x, @Coquelicot.Derive.is_derive Coquelicot.Hierarchy.R_AbsRing Coquelicot.Hierarchy.R_NormedModule L x (g x)) -> (forall x, @Coquelicot.Derive.is_derive Coquelicot.Hierarchy.R_AbsRing Coquelicot.Hierarchy.R_NormedModule g x (h x)) ->
+  @Coquelicot.Derive.is_derive Coquelicot.Hierarchy.R_AbsRing Coquelicot.Hierarchy.R_NormedModule (fun n => L (multi_nsf (RNum erfR) n f)) ns (f * g (multi_nsf (RNum erfR) ns f)) /\
+  @Coquelicot.Derive.is_derive Coquelicot.Hierarchy.R_AbsRing Coquelicot.Hierarchy.R_NormedModule (fun n => f * g (multi_nsf (RNum erfR) n f)) ns
             (multi_ns_grad2_term (RNum erfR) (h (multi_nsf (RNum erfR) ns f)) f).
 Proof. exact multi_ns_grad2_is_second_derivative. Qed.
 Print Assumptions C11_multi_ns_grad2.
